@@ -99,6 +99,8 @@ def coq_files():
                 rel = os.path.relpath(os.path.join(root, f), COQ)
                 if rel.startswith("Extract") or rel.startswith("Properties") or rel.startswith("cases"):
                     continue
+                if f.endswith("_wip.v") or "scratch" in rel:
+                    continue
                 fs.append(rel)
     return sorted(fs)
 
@@ -179,7 +181,7 @@ def hygiene():
     bad = []
     for root, _, files in os.walk(COQ):
         for f in files:
-            if not f.endswith(".v"):
+            if not f.endswith(".v") or f.endswith("_wip.v") or "scratch" in root:
                 continue
             path = os.path.join(root, f)
             text = strip_comments(open(path).read())
@@ -198,28 +200,51 @@ def hygiene():
 # --------------------------------------------------------------------------------------------
 # OCaml model driver
 
+def extract_roots():
+    """coq/Extract/roots/*.txt: lines 'Require <Module>' and 'Root <ident> ...'"""
+    reqs, roots = [], []
+    d = os.path.join(COQ, "Extract", "roots")
+    for f in sorted(os.listdir(d)):
+        if not f.endswith(".txt"):
+            continue
+        for line in open(os.path.join(d, f)):
+            t = line.split()
+            if not t:
+                continue
+            if t[0] == "Require":
+                reqs += [x for x in t[1:] if x not in reqs]
+            elif t[0] == "Root":
+                roots += [x for x in t[1:] if x not in roots]
+    return reqs, roots
+
+
 def build_model():
+    """Extract.v is assembled from coq/Extract/roots/*.txt; the OCaml driver is driver.ml plus
+    every ocaml/eng_*.ml (one per engine, each registers itself in Driver.engines)"""
     with Lock("ocaml"):
-        ok, out, _ = coq_build(extract_deps())
+        reqs, roots = extract_roots()
+        text = ("(* GENERATED by tools/driver.py from coq/Extract/roots/*.txt.\n"
+                "   Extraction of the executable models to OCaml (one file, model.ml).  ExtrOcamlBasic only:\n"
+                "   bool, option, unit, list, prod, sumbool, sumor are mapped to their OCaml namesakes;\n"
+                "   numbers stay Coq positive/N/Z/nat. *)\n"
+                "Require Extraction.\nRequire Import ExtrOcamlBasic.\n"
+                + "".join("From Dnp3V Require Import %s.\n" % r for r in reqs)
+                + "Extraction Language OCaml.\n"
+                + 'Extraction "model.ml" %s.\n' % " ".join(roots))
+        write_if_changed(os.path.join(COQ, "Extract", "Extract.v"), text)
+        ok, out, _ = coq_build([r.replace(".", "/") + ".vo" for r in reqs])
         if not ok:
             raise BuildError("coq build of the model failed:\n" + out[-3000:])
         stamp = os.path.join(OCAML, "driver")
+        engs = sorted(glob.glob(os.path.join(OCAML, "eng_*.ml")))
         srcs = [os.path.join(COQ, f) for f in coq_files()] + [os.path.join(COQ, "Extract", "Extract.v"),
-                                                               os.path.join(OCAML, "driver.ml")]
+                                                               os.path.join(OCAML, "driver.ml"), os.path.join(OCAML, "main.ml")] + engs
         newest = max(os.path.getmtime(s) for s in srcs)
         if os.path.exists(stamp) and os.path.getmtime(stamp) >= newest:
             return
         sh(["coqc", "-Q", COQ, "Dnp3V", os.path.join(COQ, "Extract", "Extract.v")], cwd=OCAML)
-        sh("ocamlfind ocamlopt -O3 -unboxed-types 2>/dev/null; ocamlfind ocamlopt -w -a model.mli model.ml driver.ml -o driver", cwd=OCAML)
-
-
-def extract_deps():
-    text = open(os.path.join(COQ, "Extract", "Extract.v")).read()
-    deps = []
-    for m in re.finditer(r"From Dnp3V Require Import ([^.]+(?:\.[A-Za-z_]\w*)*)\.", text):
-        for mod in m.group(1).split():
-            deps.append(mod.replace(".", "/") + ".vo")
-    return deps
+        sh(["ocamlfind", "ocamlopt", "-w", "-a", "model.mli", "model.ml", "driver.ml"]
+           + [os.path.basename(e) for e in engs] + ["main.ml", "-o", "driver"], cwd=OCAML)
 
 
 def run_model(script_path, out_path):
